@@ -143,6 +143,21 @@ class Lib:
     def delete_module(self, m):
         self.call("delete_module_info", m)
 
+    # ---- module / table memory (heap blocks owned by a module, or a single precomputed table)
+    def module_blocks(self, m):
+        f = self.fn("vh_module_blocks", "u pppu", self.vh)
+        ptrs = (ctypes.c_void_p * 16)()
+        sizes = (ctypes.c_uint64 * 16)()
+        k = f(m, ctypes.addressof(ptrs), ctypes.addressof(sizes), 16)
+        return [(int(ptrs[i]), int(sizes[i])) for i in range(k)]
+
+    def block(self, p):
+        return (int(p), int(self.fn("vh_block_size", "u p", self.vh)(p)))
+
+    @staticmethod
+    def snapshot_blocks(blocks):
+        return [ctypes.string_at(p, n) for (p, n) in blocks]
+
 
 GUARD = 512  # bytes of canary on each side
 CANARY = 0xA5
